@@ -94,6 +94,11 @@ func runInterleaveCell(dir string, spec icellSpec, variant int, seed int64, r *e
 	banSrv := w.S0
 	switch spec.Site {
 	case "wt.afterList", "wt.beforeUpdate":
+		if spec.Op == "rotate" {
+			// the rotator is gated, so the clock may already stand past the rotation trigger when the round
+			// fetches its datapoints: the injected rotation then separates "fetch/list" from "store"
+			setClock(w.S.VerifSnapshot(false).Offset + 3201)
+		}
 		trig = func() string {
 			if !drv.StepImpact() {
 				return "err:impact job did not come round (driver watchdog)"
@@ -131,7 +136,7 @@ func runInterleaveCell(dir string, spec icellSpec, variant int, seed int64, r *e
 		off := w.S.VerifSnapshot(false).Offset
 		effect = func() { w.M.Rotate() }
 		trig = func() string {
-			drv.SetClock(off + 3201)
+			setClock(off + 3201)
 			return fmt.Sprintf("rotations=%d", drv.StepRotation())
 		}
 	case "archive.beforeFile":
@@ -205,7 +210,7 @@ func runInterleaveCell(dir string, spec icellSpec, variant int, seed int64, r *e
 			deliver(d.Report(s, p+1).Bytes())
 		case "rotate":
 			off := w.S.VerifSnapshot(false).Offset
-			drv.SetClock(off + 3201)
+			setClock(off + 3201)
 			opDesc = "rotation"
 			if n := drv.StepRotation(); n != 1 { // -1: wall-clock watchdog of the driver; 0: harness expectation broken
 				r.Inconc(fmt.Sprintf("interleave cell %s: injected rotation did not rotate (%d)", name, n))
@@ -294,6 +299,27 @@ func runInterleaveCell(dir string, spec icellSpec, variant int, seed int64, r *e
 		return
 	}
 	snap := w.S.VerifSnapshot(true)
+	if strings.HasPrefix(spec.Site, "wt.") && !clockBack.Load() {
+		// position of the released round's datapoints: every device that was listed and is still authorized
+		// holds a value at now-offset(final), whether its update ran before the injected operation (a
+		// rotation moves it there) or after it. Devices whose fake value may be <= 0 are left out.
+		idx := int64(clockHigh.Load()) - int64(snap.Offset)
+		for _, d := range []*drv.Dev{w.A, w.B} {
+			if d == nil || idx < 0 || idx >= 4032 {
+				continue
+			}
+			if _, listed := snap.Equipment[d.ID]; !listed || d.Auth.Lat+d.Auth.Long+200 <= 0 || snap.Impact[d.ID] == nil {
+				continue
+			}
+			r.Count("interleave.impact_slot_checks", 1)
+			if snap.Impact[d.ID][idx] == 0 {
+				replay["model_log"] = w.M.Log
+				r.Violationf("impact-value-missing-at-its-timeslot", replay,
+					"after %s injected at %s the impact round left device %d without a value at index %d (timeslot %d, window offset %d): every sequential order stores the round's datapoint there",
+					opDesc, spec.Site, d.ID, idx, clockHigh.Load(), snap.Offset)
+			}
+		}
+	}
 	if diffs := w.M.Compare(snap); len(diffs) > 0 {
 		replay["model_log"] = w.M.Log
 		replay["differences"] = diffs
